@@ -1,7 +1,9 @@
-//go:build !skip_c07_fs
+//go:build !skip_c06c07_fs
 
 package main
 
+// The real FileStorage back-end for the bundle checks.
+// C06: whole histories run in this process on a FileStorage directory through a logging wrapper.
 // C07, real process death on the real FileStorage: the faulted operation runs in a CHILD PROCESS
 // (this same binary, re-executed) on a FileStorage directory through a counting wrapper that sends
 // SIGKILL to its own process right after Storage call k has returned. Nothing of the dying
@@ -201,6 +203,22 @@ type c07FSWorld struct {
 	evs []c07FSEvent
 }
 
+// c07NewFSWorld: a bundle world whose storage is the FileStorage directory dir.
+func c07NewFSWorld(cfg c06Cfg, subj c06Subject, dir string) *c07FSWorld {
+	fw := &c07FSWorld{c06World: c06NewWorld(cfg, subj), dir: dir}
+	store := &certmagic.FileStorage{Path: dir}
+	fw.rawGet = func(key string) ([]byte, bool) {
+		b, err := os.ReadFile(store.Filename(key))
+		return b, err == nil
+	}
+	fw.rawPut = func(key string, val []byte) {
+		os.MkdirAll(filepath.Dir(store.Filename(key)), 0o700)
+		os.WriteFile(store.Filename(key), val, 0o600)
+	}
+	fw.snapFn = fw.snapshotFS
+	return fw
+}
+
 func (fw *c07FSWorld) record(ev c07FSEvent) {
 	fw.mu.Lock()
 	fw.evs = append(fw.evs, ev)
@@ -268,6 +286,10 @@ func (fw *c07FSWorld) runLocal(h c06Hop, doProbe bool) (c06Obs, bool) {
 		err = cfg.RenewCertSync(ctx, w.subj.Spelling, h.Force)
 	case "manage":
 		err = cfg.ManageSync(ctx, []string{w.subj.Spelling})
+	case "revenv":
+		w.revokeEnv(h.I, h.KC)
+	case "revapi":
+		err = cfg.RevokeCert(ctx, w.subj.Spelling, 0, true)
 	default:
 		panic("unknown op " + h.Op)
 	}
@@ -395,7 +417,7 @@ func c07RunFSCase(in c07In, base string, idx int) c07FSResult {
 		return c07FSResult{skip: "mkdir: " + err.Error()}
 	}
 	defer os.RemoveAll(scratch)
-	fw := &c07FSWorld{c06World: c06NewWorld(in.Cfg, in.Subj), dir: dir}
+	fw := c07NewFSWorld(in.Cfg, in.Subj, dir)
 	// the set-up runs in child processes too (which exit normally): a process that has held and
 	// released a FileStorage lock keeps a heartbeat goroutine for up to one interval, and that goroutine
 	// would adopt and refresh for ever the lock file the dying child creates under the same name
